@@ -116,7 +116,7 @@ class LockStep:
     """Replays one TLC behaviour of SctpAssoc into a real pair and compares the projected
     state after every step.  The executed trace is returned for validation against layer A."""
 
-    def __init__(self, config, origin_a=None, origin_b=None):
+    def __init__(self, config, origin_a=None, origin_b=None, sseq=0):
         self.cfg = config
         self.env = Env(origin_a, origin_b)
         env = self.env
@@ -131,6 +131,8 @@ class LockStep:
                 kw["maxPacketLifeTime"] = LIFETIME_MS
             self.tok[c] = env.create("A", **kw)
             self._settle()
+            if sseq:       # C17: the stream sequence numbers continue at `sseq` (next to the 16-bit wrap)
+                env.shift_sseq(self.tok[c], sseq)
         a, b = env.ep["A"], env.ep["B"]
         S = env.S
         self.base = S.tsn_minus_one(a._local_tsn)        # model TSN t <-> base + t
